@@ -17,7 +17,12 @@ def run(chk):
         "time passes only in the operation and the sleeper; monotonic clock non-decreasing; 1/64 s grid",
         "decision callbacks (classifier, strategy, sleep handler, sleeper) do not raise ordinary exceptions",
     ]
-    rc.run_runner_check(chk, "C16", "proj_C16", OPTS)
+    ok = chk.check_theorems()
+    rc.run_runner_check(chk, "C16", "proj_C16", OPTS, theorems_ok=ok)
+    if ok:
+        import source_tie
+        source_tie.report(chk, source_tie.sleep_tie(chk), "sleep",
+                          "scripted call sequences (random, abort sentinels and sweeps): no property violation found")
 
 
 def replay(path):
